@@ -148,7 +148,7 @@ HasLookAlike == DOMAIN st.kv \cap LookAlikes # {}
 \* client library would not build - empty index name, names with '/' (inner, leading, trailing), the separator
 \* byte, empty secondary key, both empty, a repeated declaration, two declarations that denote the same entry
 \* key, ordinary and hostile ones mixed, and many declarations (12: four ordinary ones, each twice, hostile ones
-\* in between).  They are offered on a reduced product of the other fields from every set-up, and there are two
+\* in between).  They are offered with a reduced choice of the other fields from every set-up, and there are two
 \* more set-ups whose records CARRY such declarations (one of them ephemeral), so that overwriting, deleting and
 \* range-deleting such a record - deleteSecondaryIndexes on the stored declarations - is enumerated as well.
 NSl  == <<SLASH>>          \* "/"
@@ -164,8 +164,12 @@ C13HostileIdx == { <<IE(<<>>, Kb)>>, <<IE(Kab, Kb)>>, <<IE(NSl, Kb)>>, <<IE(NiSl
                    <<IE(Ka, Kbc), IE(Kab, Kc)>>,                     \* both denote "__oxia/idx/a/b/c\x01<primary>"
                    <<IE(Ni, Kb), IE(<<>>, Kc), IE(Kab, <<>>)>>,      \* ordinary and hostile mixed
                    ManyIdx }
-C13HP == {[key |-> k, val |-> 0, exp |-> x, sess |-> se, cid |-> "", pkey |-> TRUE, deltas |-> d, idx |-> ix] :
-            k \in {<<>>, Ka, Kab, Kox}, x \in {NoExp, 0}, se \in {NoSess, 0}, d \in {<<>>, <<1>>}, ix \in C13HostileIdx}
+\* (the other fields one feature at a time - unconditional, conditional, ephemeral, sequence put; their
+\* combinations with each other are in C13P)
+C13HVariants == {[exp |-> NoExp, sess |-> NoSess, deltas |-> <<>>], [exp |-> 0, sess |-> NoSess, deltas |-> <<>>],
+                 [exp |-> NoExp, sess |-> 0, deltas |-> <<>>], [exp |-> NoExp, sess |-> NoSess, deltas |-> <<1>>]}
+C13HP == {[key |-> k, val |-> 0, exp |-> v.exp, sess |-> v.sess, cid |-> "", pkey |-> TRUE, deltas |-> v.deltas, idx |-> ix] :
+            k \in {<<>>, Ka, Kab, Kox}, v \in C13HVariants, ix \in C13HostileIdx}
 HostileSetups == <<
    << [NoReq EXCEPT !.puts = <<[PlainPut(Ka, 1, NoExp) EXCEPT !.idx = <<IE(<<>>, Kb), IE(Kab, <<>>)>>],
                                [PlainPut(Kab, 2, NoExp) EXCEPT !.idx = <<IE(Ka, Kbc), IE(Kab, Kc), IE(Ka, Kbc)>>],
